@@ -24,6 +24,7 @@ def errName : Mono.Err → String
   | .indexError => "indexError"
   | .sortFailed => "sortFailed"
   | .emptyArgmin => "emptyArgmin"
+  | .noSeds => "noSeds"
 
 /-- `window {ws} wmin wmax` → `jlo jhi` (ws as read with order='nu') -/
 def opWindow : Rd String := do
@@ -84,6 +85,27 @@ def opMonoFiles : Rd String := do
       s!"{f.index} {showRat f.filtwav} {ns} {showRowsR f.flux} {showRowsR f.err}"
     pure (" ".intercalate ("ok" :: toString fs.length :: fs.map one))
 
+/-- `monorun {ws} {aps} nseds {name {flux rows} {err rows}}* {ref names} wmin wmax maxram`
+    → `ok nfiles {index filtwav {names} {flux rows} {err rows}}* ntable {name|-}*` or `raise <err>`:
+    the whole call (window → chunk size → loop → files → table) -/
+def opMonoRun : Rd String := do
+  let ws ← listOf rat
+  let aps ← listOf rat
+  let seds ← listOf readSedIn
+  let ref ← listOf tok
+  let wmin ← readEnd
+  let wmax ← readEnd
+  let maxRam ← rat
+  match monoRun stripS u30 ws aps seds ref wmin wmax maxRam with
+  | .error e => pure s!"raise {errName e}"
+  | .ok res =>
+    let one (f : MonoFile String Rat) : String :=
+      let ns := " ".intercalate (toString f.names.length :: f.names)
+      s!"{f.index} {showRat f.filtwav} {ns} {showRowsR f.flux} {showRowsR f.err}"
+    let tab := res.tableFilter.map (fun n => if n = "" then "-" else n)
+    pure (" ".intercalate (["ok", toString res.files.length] ++ res.files.map one ++
+      [toString tab.length] ++ tab))
+
 /-- `nearest {ws} w0` → `idx margin` (margin = gap between the smallest and the second smallest
     distance, relative to the smallest spacing scale; 0 means a tie) or `raise <err>` -/
 def opNearest : Rd String := do
@@ -108,6 +130,7 @@ def handleC16 (op : String) : Option (Rd String) :=
   | "chunksize" => some C16.opChunkSize
   | "chunks" => some C16.opChunks
   | "monofiles" => some C16.opMonoFiles
+  | "monorun" => some C16.opMonoRun
   | "nearest" => some C16.opNearest
   | _ => none
 
